@@ -217,6 +217,15 @@ func runSession(e *Env, o *oracle, ops []Op, mode string) (*sessionRec, *Violati
 		if open && op.K == "open" {
 			continue
 		}
+		if e.IOFaultSeen && op.K == "close" {
+			// After a record append failed part-way, the unchanged pogreb keeps the stored part behind the
+			// logical end of the segment and overwrites it with the next record - but a clean Close/Open
+			// takes the file length, garbage included, as the end of the log, and everything written after
+			// that is lost at the next recovery. That is behaviour after a failed file-system call, which no
+			// listed property covers; the session with an injected error therefore stays open until its crash
+			// (recovery then cuts the garbage off), and everything acknowledged in it is checked as usual.
+			continue
+		}
 		wasUnresolved := len(cur.unresolved) > 0 && op.K == "open"
 		v := e.Do(op)
 		if v != nil && !(wasUnresolved && v.Class == "open-failed") {
@@ -259,9 +268,16 @@ func runSession(e *Env, o *oracle, ops []Op, mode string) (*sessionRec, *Violati
 			}
 		case "put", "del":
 			k, mv, _ := opEffect(op, e.Keys)
-			cur.write(k, mv)
-			if e.Cfg.SyncMode == 2 {
-				cur.syncPoint()
+			now, ok := e.Model.Get([]byte(k))
+			if (mval{ok, now}).eq(mv) {
+				cur.write(k, mv)
+			} else {
+				// the write failed with the injected I/O error and was not applied; it stays a value the
+				// key was "given" (classification of a later mismatch), nothing else
+				cur.history[k] = cur.history[k].add(mv)
+			}
+			if e.Cfg.SyncMode == 2 && !e.LastWriteFailed {
+				cur.syncPoint() // a write that returned an error did not reach its sync
 			}
 		case "sync":
 			cur.syncPoint()
@@ -438,6 +454,22 @@ func (crashEngine) Generate(rng *rand.Rand, prop string, thorough bool) *Plan {
 	id := 0
 	for e := 0; e < nEpochs; e++ {
 		ops := append([]Op{{K: "open"}}, GenSeqOps(rng, cfg, g, &id)...)
+		if (prop == "C03" || prop == "C04" || prop == "C06") && rng.Intn(3) == 0 {
+			// injected I/O errors: the record append of 1-2 writes fails with ENOSPC after part of it was stored
+			for n := 1 + rng.Intn(2); n > 0; n-- {
+				var pos []int
+				for i, op := range ops {
+					if (op.K == "put" || op.K == "del") && (i == 0 || ops[i-1].K != "iofail") {
+						pos = append(pos, i)
+					}
+				}
+				if len(pos) == 0 {
+					break
+				}
+				i := pos[rng.Intn(len(pos))]
+				ops = append(ops[:i:i], append([]Op{{K: "iofail", Size: rng.Intn(4096)}}, ops[i:]...)...)
+			}
+		}
 		if prop == "C09" && rng.Intn(3) == 0 {
 			// a maintenance-only last session: Compact (and reads) without any write, then the clean Close
 			if !openAt(ops, len(ops)) {
